@@ -190,7 +190,7 @@ impl<Tx: ProstMessage, Rx: ProstMessage> Channel<Tx, Rx> {
     //@  ret r
     //@  subst "buffer[..delimiter_size()]\n                .try_into()\n                .map_err(|_| ChannelError::MismatchBufferSize)?" => "verif_prefix8(buffer)?"
     //@  subst "usize::from_le_bytes(delimiter)" => "verif_usize_from_le_bytes(delimiter)"
-    //@  subst "Rx::decode(&buffer[delimiter_size()..message_len])\n                    .map_err(ChannelError::InvalidProtobufMessage)?" => "verif_map_decode_err(Rx::decode(&buffer[delimiter_size()..message_len]))?"
+    //@  subst "decoded.map_err(ChannelError::InvalidProtobufMessage)?" => "verif_map_decode_err(decoded)?"
     //@  requires
     //@    old(self).wf(),
     //@  ensures
